@@ -335,6 +335,8 @@ def instance_table(maxk):
         v = tla_string_to_json(rest)
         if t == "BIG":
             inst[("BIGSPARSE", 0)] = {"f": "BIGSPARSE", "k": 0, "flav": "p", "K": v["K"]}
+        elif t == "CHAIN":
+            inst[("BIGCHAIN", v["n"])] = {"f": "BIGCHAIN", "k": v["n"], "flav": "p", "K": v["K0"], "K1": v["K1"]}
         elif t == "INST":
             inst[(v["f"], v["k"])] = v
         elif t == "CELL":
@@ -347,9 +349,25 @@ def random_walks(nwalks, depth, maxatoms, sd):
     the specification's own fragment instances; every transition is judged by the same trace specification."""
     inst, cells = instance_table(depth + 1)
     big = inst.pop(("BIGSPARSE", 0), None)
+    chains = {k[1]: inst.pop(k) for k in [k for k in inst if k[0] == "BIGCHAIN"]}
     frags = sorted(set(f for f, _ in inst))
     R = Rendering("identity", 1.0)
     walks = []
+    # larger structures (hash-table and numpy code paths change with size): a chain of n atoms extended by a second chain
+    # with many atoms declared identical, and deletions of most atoms
+    for n, c in sorted(chains.items()):
+        K0, K1 = c["K"], c["K1"]
+        key0 = lambda i: [K0["q"][i], K0["pos"][i]]
+        rc = random.Random(sd + n)
+        maps = [[0, 3, 7], list(range(0, n, 2)), [i for i in range(n) if i not in (6, 9)], list(range(n // 2)),
+                sorted(rc.sample(range(n), max(3, n // 3))), sorted(rc.sample(range(n), (2 * n) // 3))]
+        for M in maps:
+            walks.append([{"op": "Construct", "k": 0, "frag": "BIGCHAIN", "other": K0},
+                          {"op": "Extend", "k": 1, "frag": "BIGCHAIN", "mode": "auto", "map": [[j, key0(j)] for j in M], "other": K1}])
+        dels = [[i for i in range(n) if i not in (7, 9, n - 2, n - 1)], list(range(0, n - 4)) , sorted(rc.sample(range(n), (3 * n) // 4)),
+                sorted(rc.sample(range(n), n - 3)), list(range(1, n, 2)) + [0]]
+        for S in dels:
+            walks.append([{"op": "Construct", "k": 0, "frag": "BIGCHAIN", "other": K0}, {"op": "Delete", "keys": [key0(i) for i in S]}])
     if big is not None:
         # deletions of many, widely spread atoms from a large sparsely bonded structure
         K = big["K"]
@@ -588,11 +606,13 @@ def run(prop, tier, replay=None):
                         continue
                     cases.append((b, R, v))
         out.exhaustive = True
-        if prop in ("C09", "C10"):
+        if prop in ("C09", "C10", "C11"):
             walks = random_walks((40 if tier == "quick" else 600) if prop == "C09" else 0, 14 if tier == "quick" else 24, 40, sd)
             out.notes["random_walks"] = len(walks)
             out.notes["random_walk_steps"] = sum(len(w) for w in walks)
-            cases += [(w, Rendering("identity", 1.0), 0) for w in walks]
+            for w in walks:
+                big_delete = len(w) == 2 and w[-1]["op"] == "Delete" and len(w[-1]["keys"]) > 4
+                cases += [(w, Rendering("identity", 1.0), v) for v in range(4 if big_delete else 1)]
     # 3. execute (in parallel: one task per rendering x initial structure, so prefixes are shared inside a task)
     trans, where, paths = {}, {}, []
     groups = {}
